@@ -474,6 +474,12 @@ def replay_case_of(beh, case, values, data, variant):
 
 
 def check_x12_case(ctx, case):
+    # construction refused = violation inplace/construct/<key>/construction_refused (modelgeom_real.construct), not a machinery failure
+    from cuqiverif.modelgeom_real import refusal_is_violation
+    return refusal_is_violation("inplace/construct")(_check_x12_case_body)(ctx, case)
+
+
+def _check_x12_case_body(ctx, case):
     """--replay entry: one stored behaviour with the numbers it needs"""
     check_behaviour(ctx, case["beh"], case["cfg"], Values(case["vals"]), case["data"], variant=case.get("variant"), stored=case)
 
